@@ -68,7 +68,8 @@ def contract_table(ctx, cls):
     error, with and without fallback: the contract is a total function of (where it fails, what is raised, with_failback)."""
     import itertools
     from ..interp import Interp, Obj, Raised, Env
-    methods = {'SqlalchemyRender': {m.name: m for m in cls.body if isinstance(m, ast.FunctionDef)}}
+    from ..interp import class_members
+    methods = {'SqlalchemyRender': class_members(cls)}
     isa = {'CompileError': {'SQLAlchemyError', 'Exception'}, 'SQLAlchemyError': {'Exception'}, 'RenderError': {'Exception'}, 'Select': {'ASTNode'},
            'UnsupportedCompilationError': {'CompileError', 'SQLAlchemyError', 'Exception'}}
     kinds = [('KeyError', ('k',)), ('TypeError', ('bad operand',)), ('AttributeError', ("no attribute",)), ('IndexError', ()), ('Exception', ()), ('Exception', ('x',)),
